@@ -50,19 +50,28 @@ def _local_table(fn):
     body = fn.body
     decls = {}
     written = set()
+    wlines = {}
+    uses = {}
+
+    def w(name, line):
+        written.add(name)
+        wlines.setdefault(name, []).append(line)
     for n in body.walk():
         if n.k == 'VarDecl' and n.n:
             decls.setdefault(n.n, []).append(n)
+        if n.k == 'DeclRefExpr' and n.d.get('local') and n.n:
+            uses.setdefault(n.n, []).append(n.l)
         if n.k == 'BinaryOperator' and n.o == '=' and len(n.c) == 2:
-            written.add(_raw_target(n.c[0]))
+            w(_raw_target(n.c[0]), n.l)
         elif n.k == 'CompoundAssignOperator' and n.c:
-            written.add(_raw_target(n.c[0]))
+            w(_raw_target(n.c[0]), n.l)
         elif n.k == 'UnaryOperator' and n.o in ('++', '--') and n.c:
-            written.add(_raw_target(n.c[0]))
+            w(_raw_target(n.c[0]), n.l)
         elif n.k == 'CXXOperatorCallExpr' and n.o in ('=', '+=', '-=', '|=', '&=', '^=', '++', '--') and n.c:
-            written.add(_raw_target(n.c[0]))
+            w(_raw_target(n.c[0]), n.l)
         elif n.k == 'UnaryOperator' and n.o == '&' and n.c and strip_casts_raw(n.c[0]).k in REF_KINDS and strip_casts_raw(n.c[0]).d.get('local'):
-            written.add(strip_casts_raw(n.c[0]).n)      # address taken: may be written through the pointer
+            w(strip_casts_raw(n.c[0]).n, n.l)      # address taken: may be written through the pointer
+    has_loop = any(n.k in ('ForStmt', 'WhileStmt', 'DoStmt', 'CXXForRangeStmt', 'GotoStmt') for n in body.walk())
     for name, ds in decls.items():
         if len(ds) != 1 or not ds[0].c or name in written:
             continue
@@ -83,7 +92,11 @@ def _local_table(fn):
                 if x.d.get('cn') not in PURE_CALLS:
                     ok = False
             elif x.k in REF_KINDS and not x.d.get('local') and x.d.get('dk') not in ('Function', 'EnumConstant', 'CXXMethod') and x.d.get('r') != 'callee' and x.n in written:
-                ok = False                                # reads a member / global that this function also writes
+                # reads a member / global that this function also writes: fine only if every such write comes after the last use of the local
+                # (the flag then still says what it said when it was tested) and the function has no loop
+                last_use = max(uses.get(name, [d.l]))
+                if has_loop or not all(l > last_use or l < d.l for l in wlines.get(x.n, [])):
+                    ok = False
             if not ok:
                 break
         if ok:
@@ -158,6 +171,8 @@ def atoms(cond, outcome):
                 init = resolve_local(a)
                 if init is not None and _condition_like(init):
                     return [(l, op, r)] + atoms(init, (op == '==') == bool(b.v))
+        if _const_like(l) and not _const_like(r):
+            l, r, op = r, l, SWAP[op]              # constants and enumerators on the right: `success != rc` reads `rc != success`
         out.append((l, op, r))
         return out
     out.append((c, '!=' if outcome else '==', 0))
@@ -165,6 +180,13 @@ def atoms(cond, outcome):
     if init is not None and _condition_like(init):
         out.extend(atoms(init, outcome))
     return out
+
+
+def _const_like(n):
+    if isinstance(n, int):
+        return True
+    n = strip_casts(n)
+    return n is not None and ((n.v is not None and not n.c) or n.d.get('dk') == 'EnumConstant' or n.k in ('CXXNullPtrLiteralExpr', 'UnaryExprOrTypeTraitExpr', 'CXXBoolLiteralExpr', 'IntegerLiteral'))
 
 
 def _condition_like(n):
@@ -334,18 +356,34 @@ def same_expr(a, b, _depth=0):
 
 def stores(root):
     """assignments below root: yields (target node, op, value node|None, stmt node).
-    op is '=', '+=', ..., '++', '--'."""
+    op is '=', '+=', ..., '++', '--'. Canonical forms: `x = x + k` is reported as `x += k`, `x += 1` / `x -= 1` as `++` / `--`."""
     for n in root.walk():
         if n.k == 'BinaryOperator' and n.o == '=' and len(n.c) == 2:
+            rhs = strip_casts(n.c[1])
+            if rhs is not None and rhs.k == 'BinaryOperator' and rhs.o in ('+', '-') and len(rhs.c) == 2 and strip_casts(n.c[0]).k in REF_KINDS:
+                if same_expr(rhs.c[0], n.c[0]):
+                    yield from _step(n.c[0], rhs.o + '=', rhs.c[1], n)
+                    continue
+                if rhs.o == '+' and same_expr(rhs.c[1], n.c[0]):
+                    yield from _step(n.c[0], '+=', rhs.c[0], n)
+                    continue
             yield n.c[0], '=', n.c[1], n
         elif n.k == 'CompoundAssignOperator' and len(n.c) == 2:
-            yield n.c[0], n.o, n.c[1], n
+            yield from _step(n.c[0], n.o, n.c[1], n)
         elif n.k == 'UnaryOperator' and n.o in ('++', '--') and n.c:
             yield n.c[0], n.o, None, n
         elif n.k == 'CXXOperatorCallExpr' and n.o in ('=', '+=', '-=', '|=', '&=', '^=') and len(n.c) == 2:
             yield n.c[0], n.o, n.c[1], n
         elif n.k == 'CXXOperatorCallExpr' and n.o in ('++', '--') and n.c:
             yield n.c[0], n.o, None, n
+
+
+def _step(tgt, op, val, n):
+    v = strip_casts(val)
+    if op in ('+=', '-=') and v is not None and v.v == 1 and not v.c and '*' not in (strip_casts(tgt).t or ''):
+        yield tgt, '++' if op == '+=' else '--', None, n
+    else:
+        yield tgt, op, val, n
 
 
 def target_name(t):
@@ -410,6 +448,58 @@ def mentions(n, name, _depth=0):
             if init is not None and mentions(init, name, _depth + 1):
                 return True
     return False
+
+
+def elem_addr(n):
+    """(base node, index node | 0) when n is the address of an element: `p + k` (also the loaded form of `&p[k]`), `&a[k]` on a class with
+    operator[], or a bare pointer / array name (index 0); None otherwise"""
+    n = strip_casts(n)
+    if n is None or isinstance(n, int):
+        return None
+    if n.k in ('BinaryOperator', 'CXXOperatorCallExpr') and n.o == '+' and len(n.c) == 2:
+        return (n.c[0], n.c[1])
+    if n.k == 'UnaryOperator' and n.o == '&' and n.c:
+        x = strip_casts(n.c[0])
+        if x.k == 'ArraySubscriptExpr' and len(x.c) == 2:
+            return (x.c[0], x.c[1])
+        if x.k == 'CXXOperatorCallExpr' and x.o == '[]' and len(x.c) >= 2:
+            return (x.c[-2], x.c[-1])
+    if n.k in REF_KINDS:
+        return (n, 0)
+    return None
+
+
+def as_elem(n):
+    """(base node, index node | 0) when n designates an element: `p[k]`, `*(p + k)`, `*p`; None otherwise"""
+    n = strip_casts(n)
+    if n is None or isinstance(n, int):
+        return None
+    if n.k == 'ArraySubscriptExpr' and len(n.c) == 2:
+        return (n.c[0], n.c[1])
+    if n.k == 'CXXOperatorCallExpr' and n.o == '[]' and len(n.c) >= 2:
+        return (n.c[-2], n.c[-1])
+    if n.k in ('UnaryOperator', 'CXXOperatorCallExpr') and n.o == '*' and n.c:
+        inner = strip_casts(n.c[-1])
+        if inner.k in ('BinaryOperator', 'CXXOperatorCallExpr') and inner.o == '+' and len(inner.c) == 2:
+            return (inner.c[0], inner.c[1])
+        return (inner, 0)
+    return None
+
+
+def deep_walk(n, _depth=0):
+    """nodes below n, continuing into the initialisers of named pure locals"""
+    if n is None or isinstance(n, int):
+        return
+    for x in n.walk():
+        yield x
+        if _depth < 4:
+            init = resolve_local(x)
+            if init is not None:
+                yield from deep_walk(init, _depth + 1)
+
+
+def deep_calls(n, name=None):
+    return [x for x in deep_walk(n) if x.is_call(name)]
 
 
 def variants(facts, q, chk=None, need_pattern=True, file=None):
